@@ -35,6 +35,8 @@ def hstack(a, b):
 
 def run(ctx):
     repo = ctx.repo
+    rules.borrow(ctx, "C10", funcs=["forsys.forsys.ForSys.solve_stress"], minimum=4, because="allow_negatives and the solver choice reach ForceMatrix.solve only if solve_stress forwards every option")
+    rules.borrow(ctx, "C13", funcs=["forsys.fmatrix.ForceMatrix.set_velocity_matrix"], minimum=8, because="the right-hand side of the system that is minimised is assembled anew, from zeros, at every solve")
     ctx.config("externals_to_use=[] (hard-wired by ForSys.build_force_matrix); method in {default, 'lsq', 'lsq_linear', 'fix_stress'}; allow_negatives=False")
 
     # ================================================================== augmentation shape
